@@ -12,7 +12,7 @@ for s in $seeds; do
   [ "$s" = "C10-b" ] && checks="C10 C18"
   [ "$s" = "C18-c" ] && checks="C18 C17"
   if ! git -C /repo diff --quiet; then echo "/repo dirty"; exit 2; fi
-  git -C /repo apply seeded/$s/patch.rebased.diff 2>/dev/null || git -C /repo apply seeded/$s/patch.diff || { echo "$s patch-does-not-apply" >> $tmp; continue; }
+  git -C /repo apply /verif/seeded/$s/patch.rebased.diff 2>/dev/null || git -C /repo apply /verif/seeded/$s/patch.diff || { echo "$s patch-does-not-apply" >> $tmp; continue; }
   line="$s"
   for c in $checks; do
     t0=$(date +%s)
@@ -24,6 +24,19 @@ for s in $seeds; do
   git -C /repo checkout -- .
   echo "$line" | tee -a $tmp
 done
-{ echo "# tier=$tier repo=$(git -C /repo rev-parse --short HEAD) verif=$(git rev-parse --short HEAD)+wt $(date -u +%FT%TZ)"; cat $tmp; } > $out
+# merge with the rows of seeds not re-run this time
+python3 - "$out" "$tmp" "# tier=$tier repo=$(git -C /repo rev-parse --short HEAD) verif=$(git rev-parse --short HEAD)+wt $(date -u +%FT%TZ) (rows of seeds not re-run are kept from earlier runs)" <<'PY'
+import sys, os
+out, tmp, head = sys.argv[1:4]
+rows = {}
+for f in (out, tmp):
+    if os.path.exists(f):
+        for l in open(f):
+            l = l.rstrip("\n")
+            if l and not l.startswith("#"):
+                rows[l.split()[0]] = l
+open(out, "w").write(head + "\n" + "\n".join(rows[k] for k in sorted(rows)) + "\n")
+PY
 rm -f $tmp
-grep -c "rc=1" $out
+echo "detected: $(grep -c 'rc=1' $out) of $(grep -vc '^#' $out)"
+grep -v "^#" $out | grep -v "rc=1"
